@@ -260,6 +260,15 @@ def check(pid, tier):
             if sample and len(samples) < 4:
                 samples.append(sample)
             core.log(json.dumps(out))
+    if pid == "C18":
+        # the handle protocol under real threads: forced schedules (spec/PinRace.tla)
+        from . import pinracecheck
+        r2, v2, s2 = pinracecheck.run(tier, base)
+        results += r2
+        violations += v2
+        samples += s2
+        for r in r2:
+            core.log(json.dumps(r))
     return finish(pid, tier, t0, results, violations, samples)
 
 
@@ -315,6 +324,15 @@ def replay(pid, path):
     with open(path) as f:
         rp = json.load(f)
     v = rp["violation"]
+    if v.get("engine") == "pinrace":
+        from . import pinracecheck
+        v2 = pinracecheck.replay(v)
+        if v2:
+            out = core.write_replay(pid, {"property": pid, "engine": "pinrace", "violation": v2})
+            print(f"VIOLATION property={pid} replay={out}")
+            return 1
+        print("replay: the recorded schedule no longer violates the property")
+        return 0
     edge, sim = profiles_for(pid, "quick")
     edge_t, sim_t = profiles_for(pid, "thorough")
     p = next((x for x in edge + sim + edge_t + sim_t if x["name"] == v["profile"]), None)
